@@ -17,6 +17,7 @@ ALLOWED = allowed('C17')
 CAUSE = part('cause', 0)          # 0 server EOF, 1 transport error, 2 keep-alive time-out, 3 explicit reconnect while healthy
 ROUNDS = part('rounds', 1)
 RECONNECT_FROM_ON_CLOSE = part('from_on_close', False)   # causes 0/1: the application reconnects from its on_close callback
+SUSPEND_CONNECT = part('suspend_connect', False)
 CLOSE_RAISES = part('close_raises', False)   # the old transport's close() raises ConnectionResetError (reset connection)
 IDLE_MAX = part('idle_max', 2500000)
 PEND = part('pend', None)          # optional partition: [pending request-response?, pending stream?, when]
@@ -81,6 +82,8 @@ def c_reconnect(pend_rr: bool, pend_rs: bool, when: int, idle_us: int, settle_us
     loop = new_loop()
     with loop:
         ts = [SimTransport(loop) for _ in range(ROUNDS + 2)]       # one spare: an unrequested extra reconnect would take it
+        for x in ts[1:]:
+            x.suspend_connect = bool(SUSPEND_CONNECT)      # the next transports' connect() suspends (e.g. a websocket handshake)
         for x in ts:
             x.close_raises = bool(CLOSE_RAISES)
             x.auto_ack = True           # a live server acknowledges keep-alives (until it goes silent for CAUSE 2)
@@ -116,6 +119,10 @@ def c_reconnect(pend_rr: bool, pend_rs: bool, when: int, idle_us: int, settle_us
                     c.request_stream(Payload(b's')).subscribe(s)
                     pend.append(('rs', s))
             _end_connection(loop, c, told, CAUSE, idle)
+            if SUSPEND_CONNECT:
+                loop.advance_us(settle_us // 2)
+                tnew.finish_connect()
+                loop.run_ready()
             loop.advance_us(settle_us)
             # ---- old connection
             if told.closed < 1:
